@@ -49,7 +49,21 @@ def st_raw(fam):
             lambda t: {"cfg": t[0]["cfg"], "buf": (lambda r, i, w: r[:i] + w + r[i + len(w):])(bytes.fromhex(t[0]["raw"]), t[1], t[2]).hex()}
         )
         plain = st.tuples(e.cfg(), noise).map(lambda t: {"cfg": t[0], "buf": t[1].hex()})
-        return st.tuples(st.one_of(plain, plain, spliced, overw), st.booleans()).map(lambda t: {"entry": e.name, "cfg": t[0]["cfg"], "buf": t[0]["buf"], "patch": bool(t[1] and e.crc is not None)})
+        # a valid unit decoded under managed parameters that do not belong to it: all of them drawn independently, or exactly one
+        # of them replaced (timestamp length, field widths, frame type, class of the properties object, configured sizes ...)
+        othercfg = st.tuples(valid, e.cfg()).map(lambda t: {"cfg": t[1], "buf": t[0]["raw"]})
+
+        def one_key(t):
+            v, other, pick = t
+            keys = sorted(k for k in other if other[k] != v["cfg"].get(k))
+            cfg = dict(v["cfg"])
+            if keys:
+                k = keys[pick % len(keys)]
+                cfg[k] = other[k]
+            return {"cfg": cfg, "buf": v["raw"]}
+
+        onekey = st.tuples(valid, e.cfg(), st.integers(0, 7)).map(one_key)
+        return st.tuples(st.one_of(plain, plain, spliced, overw, othercfg, onekey), st.booleans()).map(lambda t: {"entry": e.name, "cfg": t[0]["cfg"], "buf": t[0]["buf"], "patch": bool(t[1] and e.crc is not None)})
 
     return st.sampled_from(entries).flatmap(for_entry)
 
@@ -174,6 +188,40 @@ def _cls_subst(c):
     return [c["entry"]] + (["with and without re-patched crc"] if e.crc is not None else [])
 
 
+# ---- (d) valid units under every other configuration of the entry's finite configuration list ------------------------
+
+
+def check_othercfg(c):
+    """A valid unit is decoded under managed parameters that do not belong to it: each configuration of the entry's finite list
+    (vf/fuzz/target.py: cfg_list) as a whole, and each single parameter of it overlaid on the unit's own configuration.
+    Outcome: a result or a documented error."""
+    from ..fuzz.target import cfg_list, resolve_cfg
+
+    e = D.ENTRIES[c["entry"]]
+    raw = bytes.fromhex(c["raw"])
+    devs = []
+    seen = set()
+    tried = set()
+    n = 0
+    for other in cfg_list(e):
+        other = resolve_cfg(other, raw)
+        cands = [other] + [dict(c["cfg"], **{k: v}) for k, v in other.items() if c["cfg"].get(k) != v]
+        for cfg in cands:
+            key = repr(sorted(cfg.items(), key=lambda kv: kv[0]))
+            if key in tried:
+                continue
+            tried.add(key)
+            n += 1
+            _probe(devs, e, raw, cfg, "othercfg", False, seen)
+    return devs, max(n, 1)
+
+
+def _has_cfgs(e):
+    from ..fuzz.target import cfg_list
+
+    return cfg_list(e) != [{}]
+
+
 def _names(fam):
     return [e.name for e in D.by_family(fam)]
 
@@ -194,6 +242,16 @@ for _fam in D.FAMILIES:
         rule="every (valid unit, cut point) pair is non-trivial",
         n={"quick": 40 * len(D.by_family(_fam)), "thorough": 400 * len(D.by_family(_fam))},
     ))
+    if any(_has_cfgs(_e) for _e in D.by_family(_fam)):
+        CLAUSES.append(Clause(
+            id=f"C10.othercfg.{_fam}",
+            doc=f"{_fam}: valid units decoded under every configuration of the entry's finite list and under each single foreign parameter (timestamp length, widths, frame type, "
+                "class and sizes of the managed-parameter object): a result or a documented error",
+            strategy=(lambda _fam=_fam: st.sampled_from([_e for _e in D.by_family(_fam) if _has_cfgs(_e)]).flatmap(lambda e: e.valid().map(lambda v: {"entry": e.name, "cfg": v["cfg"], "raw": v["raw"]}))),
+            check=check_othercfg, classify=_cls_valid, required=[_e.name for _e in D.by_family(_fam) if _has_cfgs(_e)], weight_by_evals=True,
+            rule="every (valid unit, foreign configuration) pair is non-trivial",
+            n={"quick": 25 * len([_e for _e in D.by_family(_fam) if _has_cfgs(_e)]), "thorough": 300 * len([_e for _e in D.by_family(_fam) if _has_cfgs(_e)])},
+        ))
     CLAUSES.append(Clause(
         id=f"C10.subst.{_fam}",
         doc=f"{_fam}: single-octet substitutions at every index of the header/length/type region and length-field rewrites (also with the buffer cut to match) of a valid unit, each tried as is and with the CRC re-patched",
